@@ -175,13 +175,17 @@ def identify_ptms(residue, residue_ptms, known_ptms):
                 gm = nx.isomorphism.GraphMatcher(residue.subgraph(ptm_atoms), mod,
                                                  node_match=nx.isomorphism.categorical_node_match('atomname', ''))
                 match = list(gm.subgraph_isomorphisms_iter())
-                assert len(match) == 1
+                if len(match) != 1:
+                    raise KeyError('Could not identify PTM')
                 match = match[0]
                 cover.append((mod, match))
                 # (That would be here)
                 known_matched.update(match)
             ptm_atoms -= known_matched
-            assert not ptm_atoms
+            if ptm_atoms:
+                # Atoms next to an already annotated modification that the
+                # modification does not explain.
+                raise KeyError('Could not identify PTM')
         else:
             to_cover.update(ptm_atoms)
             to_cover.update(anchors)
